@@ -29,7 +29,7 @@ pub fn run(args: &[String]) -> i32 {
                         let l = (lcg(&mut seed) as usize) % (len + 1);
                         let data: Vec<u32> = (0..l).map(|_| lcg(&mut seed)).collect();
                         let mut t = Tape::new(&data);
-                        let p = svgen::generate(&mut t, &svgen::Cfg::default());
+                        let p = if std::env::var("DEV_FOCUS").is_ok() { svgen::generate_focus(&mut t) } else { svgen::generate(&mut t, &svgen::Cfg::default()) };
                         let mut f = Feats::default();
                         let text = if plain { p.render_plain() } else { p.render(&mut t, &TriviaCfg::full(), &mut f) };
                         bytes += text.len();
@@ -128,6 +128,44 @@ pub fn run(args: &[String]) -> i32 {
                     println!("corpus kinds {} svgen kinds {} union {} only-svgen {} only-corpus {}", kc.len(), kg.len(), union.len(), kg.difference(&kc).count(), kc.difference(&kg).count());
                     let only_corpus: Vec<_> = kc.difference(&kg).cloned().collect();
                     println!("only in corpus (first 80): {:?}", &only_corpus[..only_corpus.len().min(80)]);
+                })
+                .unwrap();
+            handle.join().unwrap();
+            0
+        }
+        Some("variants") => {
+            // keyword-only enum variants whose name differs from the keyword (developer statistic)
+            let root = std::path::PathBuf::from(args.get(1).cloned().unwrap_or_else(|| "/verif".to_string()));
+            let n: usize = args.get(2).and_then(|s| s.parse().ok()).unwrap_or(2000);
+            let handle = std::thread::Builder::new()
+                .stack_size(1 << 30)
+                .spawn(move || {
+                    let corpus = crate::corpus::Corpus::load(&root);
+                    let mut all: std::collections::BTreeMap<(String, String, String), usize> = Default::default();
+                    let mut texts: Vec<String> = corpus.sv.iter().map(|f| f.text.clone()).collect();
+                    let mut seed = 777u64;
+                    for _ in 0..n {
+                        let data: Vec<u32> = (0..900).map(|_| lcg(&mut seed)).collect();
+                        let mut t = Tape::new(&data);
+                        let p = svgen::generate_mixed(&mut t, &svgen::Cfg::default());
+                        texts.push(p.render_plain());
+                    }
+                    for text in &texts {
+                        if let Ok((tree, pp)) = sv::parse_text(sv::Grammar::Sv, text, false) {
+                            for (k, v, w, _) in sv::keyword_variants(&tree, &pp) {
+                                *all.entry((k, v, w.to_string())).or_insert(0) += 1;
+                            }
+                        }
+                    }
+                    let mut ok = 0;
+                    for ((k, v, w), c) in &all {
+                        if sv::snake(v) == *w {
+                            ok += 1;
+                        } else {
+                            println!("MISMATCH {}::{} <- {:?} ({} times)", k, v, w, c);
+                        }
+                    }
+                    println!("{} distinct (kind, variant, keyword) triples, {} consistent", all.len(), ok);
                 })
                 .unwrap();
             handle.join().unwrap();
